@@ -138,11 +138,26 @@ func applyTwo(b []byte, e1, e2 edit) ([]byte, bool) {
 	return applyEdit(applyEdit(b, e2), e1), true
 }
 
+// wrapLengths: values for which "header size + declared length" (or the conversion to a signed
+// int) wraps around to zero, to a small positive number or to a small negative one: 2^64-k
+// (k=1..24, only the 9-byte form can hold them), 2^32-k (k=1..12), 2^63-k and 2^63+k (k=1..24).
+func wrapLengths() []uint64 {
+	var d []uint64
+	for k := uint64(1); k <= 24; k++ {
+		d = append(d, -k, 1<<63-k, 1<<63+k) // -k == 2^64-k
+	}
+	for k := uint64(1); k <= 12; k++ {
+		d = append(d, 1<<32-k)
+	}
+	return d
+}
+
 func lengthDomain(l uint64, parentL uint64, hasParent bool) []uint64 {
 	d := []uint64{0, 1, l - 1, l + 1, 252, 253, 65535, 65536, 1<<31 - 1, 1 << 31, 1<<32 - 1, 1 << 32, 1 << 47, 1 << 62, 1<<63 - 1, 1 << 63, 1<<64 - 1}
 	if hasParent {
 		d = append(d, parentL, parentL+1)
 	}
+	d = append(d, wrapLengths()...)
 	seen := map[uint64]bool{}
 	var out []uint64
 	for _, v := range d {
